@@ -136,7 +136,7 @@ def run(ck: Check) -> None:
         oh, sg, q = hdr.hex(), k.sign(gen.gpg_digest(data, hdr)).hex(), k.hex
         r = rng.random()
         if r < 0.15:
-            oh, sg, q = rng.choice([(None, sg, q), (oh, None, q), (oh, sg, None), ("zz", "not hex", "Q"), ("", "", ""), (oh.upper(), sg.upper(), q.upper())])
+            oh, sg, q = rng.choice([(None, sg, q), (oh, None, q), (oh, sg, None), (None, None, None)])      # a signer that fails; never one that returns malformed values
         elif r < 0.25 and env["signatures"]:
             q = next(iter(env["signatures"]))         # the signer's key already has an entry: replaced, others untouched
         sslib = rng.random() > 0.1
